@@ -7,6 +7,7 @@ workbook = {
   'sheets': [{'name': 'Sheet1', 'cells': {'A1': cell, ...}}, ...],
   'names': [{'name': 'MyName', 'ref': "Sheet1!$A$1"}, ...]}
 cell = {'kind': 'n'|'s'|'str'|'inlineStr'|'b'|'e'|'date', 'v': value}
+     | {'kind': 'empty'}
      | {'kind': 'f', 'f': 'A2+1', 'cached': value|None, 'ctype': 'n'|'str'|'b'|'e'}
      | {'kind': 'shared-master', 'f': 'A1*2', 'ref': 'B1:B3', 'si': 0, 'cached':..,'ctype':..}
      | {'kind': 'shared-member', 'si': 0, 'cached': .., 'ctype': ..}
@@ -118,6 +119,9 @@ def write(path, wb):
                 elif k == 'b':
                     cs.append('<c r="%s" t="b"><v>%d</v></c>'
                               % (a1, 1 if c['v'] else 0))
+                elif k == 'empty':
+                    # a stored cell without a value (formatting only)
+                    cs.append('<c r="%s" s="1"/>' % a1)
                 elif k == 'e':
                     cs.append('<c r="%s" t="e"><v>%s</v></c>'
                               % (a1, escape(c['v'])))
